@@ -245,24 +245,36 @@ def shiftAccesses (c : Cfg) : List Acc :=
   let mv := c.ltpMem - c.frameLen
   rd .outBuf c.frameLen (c.frameLen + mv) ++ wrt .outBuf 0 mv ++ rd .xq 0 c.frameLen ++ wrt .outBuf mv (mv + c.frameLen)
 
+/-- The inputs of silk_decode_core for frame `f` decoded in state `s`. -/
+def coreInOf (s : DecSt) (f : FrameIn) : CoreIn :=
+  { fsKHz := s.fsKHz, nbSubfr := s.nbSubfr, signalType := f.signalType,
+    quantOffsetType := f.quantOffsetType, interp := f.interp, pitchL := f.pitchL,
+    lossCnt := s.lossCnt, prevSignalType := s.prevSignalType, lagPrev := s.lagPrev,
+    gainDiff := f.gainDiff, adjNe := f.adjNe }
+
+/-- State after silk_PLC_update and the bookkeeping of the good-frame branch (PLC.c:187-188,
+    decode_frame.c:125-130). -/
+def stAfterUpdate (r : DecSt) (c : Cfg) (p : Int) (sig : Int) : DecSt :=
+  { r with pitchLQ8 := p, plcSubfr := c.subfr, plcNb := (c.nbSubfr : Int), lossCnt := 0, prevSignalType := sig,
+           firstFrameAfterReset := false }
+
+/-- State after silk_PLC_conceal and `psDec->lossCnt++` (PLC.c:95). -/
+def stAfterConceal (r : DecSt) (p seed loss : Int) : DecSt :=
+  { r with pitchLQ8 := p, plcSeed := seed, lossCnt := loss }
+
 /-- One call of `silk_decode_frame` from state `s`: accesses by phase and the next state. -/
 def frameStep (s : DecSt) (f : FrameIn) : FrameAcc × DecSt :=
   let c := s.cfg
   let nb : Int := c.nbSubfr
   if ¬ f.lost then
-    let x : CoreIn := { fsKHz := s.fsKHz, nbSubfr := s.nbSubfr, signalType := f.signalType,
-                        quantOffsetType := f.quantOffsetType, interp := f.interp, pitchL := f.pitchL,
-                        lossCnt := s.lossCnt, prevSignalType := s.prevSignalType, lagPrev := s.lagPrev,
-                        gainDiff := f.gainDiff, adjNe := f.adjNe }
+    let x := coreInOf s f
     let core := coreAccesses x
     if core.2 then (⟨core.1, [], [], [], [], true⟩, s)
     else
       let pl := pitchAfterCore x
       let r := plcResetIfNeeded s
       let u := updateAccesses r.2 f.signalType pl f.ltpCoef
-      let s1 : DecSt := { r.2 with pitchLQ8 := u.2, plcSubfr := c.subfr, plcNb := nb,              -- PLC.c:187-188
-                                   lossCnt := 0, prevSignalType := f.signalType,                  -- decode_frame.c:125-126
-                                   firstFrameAfterReset := false }                                 -- :130
+      let s1 := stAfterUpdate r.2 c u.2 f.signalType
       let g := cngAccesses s1 f.gains
       let glue := if s1.lastFrameLost then rd .xq 0 c.frameLen else []                             -- PLC.c:449-452
       (⟨core.1, r.1 ++ u.1, shiftAccesses c ++ rd .pitchL (nb - 1) nb, g.1, glue, false⟩,
@@ -273,7 +285,7 @@ def frameStep (s : DecSt) (f : FrameIn) : FrameAcc × DecSt :=
     let cc := concealAccesses r.2 f.lowFirst
     if cc.2.1 then (⟨[], r.1 ++ cc.1, [], [], [], true⟩, s)
     else
-      let s1 : DecSt := { r.2 with pitchLQ8 := cc.2.2.1, plcSeed := cc.2.2.2.1, lossCnt := s.lossCnt + 1 }   -- PLC.c:95
+      let s1 := stAfterConceal r.2 cc.2.2.1 cc.2.2.2.1 (s.lossCnt + 1)                             -- PLC.c:95
       let g := cngAccesses s1 f.gains
       (⟨[], r.1 ++ cc.1, shiftAccesses c ++ rd .pitchL (nb - 1) nb, g.1, rd .xq 0 c.frameLen, false⟩,   -- PLC.c:444-448
        { s1 with cngFs := g.2.1, cngSeed := g.2.2, lastFrameLost := true, lagPrev := cc.2.2.2.2 })
